@@ -790,6 +790,21 @@ def concrete_name_spellings(rep):
             rep.violations.append({"label": "expansion differs: operators disagree on whether two calls are the same", "signature": {"what": "expansion differs", "part": "call identity", "formula": f"{P} / {Q}"},
                                    "replay": {"P": P, "Q": Q, "same_call_according_to": verdicts}, "reproduced": True, "detail": f"{P} vs {Q}: same call according to {verdicts}"})
     rep.extra["concrete_call_atom_formulas"] = m
+    # redundant parentheses around sums that contain group-specific terms
+    pairs = [("y ~ x + ((1|g) + (1|h))", "y ~ x + (1|g) + (1|h)"), ("y ~ (x + (1|g))", "y ~ x + (1|g)"), ("y ~ a + (b + (1|g))", "y ~ a + b + (1|g)"), ("y ~ (x - (1|g))", "y ~ x - (1|g)"),
+             ("y ~ ((1|g) - (1|g)) + x", "y ~ x"), ("y ~ ((1|g) + x)", "y ~ (1|g) + x"), ("y ~ ((1|g) - x) + x", "y ~ (1|g) + x"), ("y ~ ((x|g) + 0)", "y ~ (x|g) + 0"), ("y ~ (1 + (x|g))", "y ~ 1 + (x|g)"),
+             ("y ~ (0 + (x|g))", "y ~ 0 + (x|g)"), ("y ~ ((x|g) + (x|g))", "y ~ (x|g)"), ("y ~ (a:b + (1|g)) + (1|h)", "y ~ a:b + (1|g) + (1|h)"), ("y ~ a*(b) + ((c|g))", "y ~ a*b + (c|g)")]
+    for a, b in pairs:
+        res = []
+        for f in (a, b):
+            try:
+                res.append(concrete_model(model_description(f)))
+            except Exception as e:  # noqa
+                res.append(f"{type(e).__name__}: {e}"[:120])
+        if res[0] != res[1]:
+            rep.violations.append({"label": "expansion differs: redundant parentheses around a sum with group-specific terms", "signature": {"what": "expansion differs", "part": "parenthesised group terms", "formula": a},
+                                   "replay": {"formulas": [a, b], "got": [str(r) for r in res]}, "reproduced": True, "detail": f"{a!r} -> {res[0]}; {b!r} -> {res[1]}"[:300]})
+    rep.extra["parenthesised_group_pairs"] = len(pairs)
 
 
 def _work(job):
